@@ -315,10 +315,21 @@ theorem sim_bindParams {σ : Sh} (nenv : Nat) : ∀ (l : List (String × Obj)) (
     unfold bindParams
     refine SimAt.bind (sim_valueOf hR a) ?_
     rintro _ v s1 t1 hR1 ⟨rfl, _⟩
-    refine SimAt.bind (sim_createOrSet hR1 nenv p v true) ?_
-    rintro _ oerr s2 t2 hR2 rfl
-    rw [ren_isError]
-    exact SimAt.ite (fun _ => SimAt.pure hR2 rfl) (fun _ => sim_bindParams nenv rest s2 t2 hR2)
+    have hrest : ∀ s1 t1, StR σ s1 t1 → SimAt σ (do
+          let oerr ← createOrSet (sh σ nenv) p (ren σ v) true
+          if oerr.isError = true then pure (some oerr)
+            else bindParams (sh σ nenv) (List.map (fun pa => (pa.fst, ren σ pa.snd)) rest))
+        (do
+          let oerr ← createOrSet nenv p v true
+          if oerr.isError = true then pure (some oerr) else bindParams nenv rest) s1 t1 (QOpt σ) := by
+      intro s1 t1 hR1
+      refine SimAt.bind (sim_createOrSet hR1 nenv p v true) ?_
+      rintro _ oerr s2 t2 hR2 rfl
+      rw [ren_isError]
+      exact SimAt.ite (fun _ => SimAt.pure hR2 rfl) (fun _ => sim_bindParams nenv rest s2 t2 hR2)
+    dsimp only
+    refine SimAt.ite (fun _ => ?_) (fun _ => hrest s1 t1 hR1)
+    exact SimAt.bind (sim_triggerNoCache hR1 nenv) (fun _ _ s2 t2 hR2 _ => hrest s2 t2 hR2)
 
 theorem zip_ren (σ : Sh) (ps : List String) (as : List Obj) :
     ps.zip (renL σ as) = (ps.zip as).map fun pa => (pa.1, ren σ pa.2) := by
